@@ -451,8 +451,22 @@ func init() {
 			{H: "H_C05_TwoDrivers", K: 44, U: 4, Race: true, Only: "race/", Prune: true, Preempt: 2, TimeoutSec: 900},
 			{H: "H_C10_WaitWithReleased", K: 36, U: 3, Race: true, Only: "race/", Prune: true, TimeoutSec: 900},
 			{H: "H_C18_Unlimited", K: 34, U: 3, Race: true, Only: "race/"},
+			{H: "H_C18_InitialWatch", K: 34, U: 4, Race: true, Only: "race/"},
+			{H: "H_C16_OnceTwo", K: 34, U: 2, Preempt: 1, Race: true, Only: "race/"},
+			{H: "H_C01_RW_2R1W", K: 26, U: 3, Race: true, Only: "race/"},
+			{H: "H_C11_ReplaceBack", K: 40, U: 3, Race: true, Only: "race/"},
+			{H: "H_C15_Waiters", K: 34, U: 3, Race: true, Only: "race/"},
 		},
-		Bounds:  "client programs: the dedicated H_C13_* harnesses (iocloser Read/Write||Close, SizeReadWriter Read||Write||TotalSize, Keyed Set||Remove+GetKeys, KeyedRefCount AddKeyRef||Release||RemoveKey, RefCount AddRef/Release||SetContext, RoutineContainer SetRoutine||SetContext||RestartRoutine) plus one harness of each other concurrent type (ccall, Promise, CContainer, LinkedList, MemoizeFunc, Broadcast, csync.Mutex, StateRoutineContainer, WaitWithReleased, ConcurrentQueue); violation = a schedule with two co-pending conflicting plain accesses to one cell, at least one in library code",
+		Thorough: []Job{
+			{H: "H_C12_PushPushPop", K: 34, U: 3, Race: true, Only: "race/", TimeoutSec: 3000},
+			{H: "H_C11_Container", K: 34, U: 3, Race: true, Only: "race/", TimeoutSec: 3000},
+			{H: "H_C18_Limit1Small", K: 34, U: 3, Preempt: 1, Race: true, Only: "race/", TimeoutSec: 3000},
+			{H: "H_C09_Delivered", K: 80, U: 3, Prune: true, Preempt: 2, Race: true, Only: "race/", TimeoutSec: 3000},
+			{H: "H_C08_Script", K: 60, U: 3, Prune: true, Preempt: 2, Race: true, Only: "race/", Fixes: []string{"op0=0,op1=4"}, TimeoutSec: 3000},
+			{H: "H_C07_ResetDuringRetry", K: 40, U: 3, Prune: true, Preempt: 2, Race: true, Only: "race/", TimeoutSec: 3000},
+			{H: "H_C04_State2", K: 44, U: 3, Prune: true, Preempt: 1, Race: true, Only: "race/", TimeoutSec: 3000},
+		},
+		Bounds:  "(second group, added later: ConcurrentQueue with initial elements + WatchState, promise.Once with two callers, RWMutex 2 readers + writer, PromiseContainer replacement A-B-A with an awaiter, CContainer writer + three kinds of waiters; thorough adds AtomicLIFO push/push/pop, PromiseContainer, limit-1 queue with two producers, RefCount delivery, a RefCount script, Keyed reset during retry, StateRoutineContainer SetState x2) client programs: the dedicated H_C13_* harnesses (iocloser Read/Write||Close, SizeReadWriter Read||Write||TotalSize, Keyed Set||Remove+GetKeys, KeyedRefCount AddKeyRef||Release||RemoveKey, RefCount AddRef/Release||SetContext, RoutineContainer SetRoutine||SetContext||RestartRoutine) plus one harness of each other concurrent type (ccall, Promise, CContainer, LinkedList, MemoizeFunc, Broadcast, csync.Mutex, StateRoutineContainer, WaitWithReleased, ConcurrentQueue); violation = a schedule with two co-pending conflicting plain accesses to one cell, at least one in library code",
 		Outside: "'every client program' is this finite set of programs; weak-memory effects (the model is sequentially consistent: an SC execution with two co-enabled conflicting accesses exists iff the program has a data race)",
 	}
 	plans["C09"] = Plan{
@@ -460,18 +474,23 @@ func init() {
 			{H: "H_C09_Overlap", K: 30, U: 3, Prune: true, Preempt: 2, TimeoutSec: 900},
 			{H: "H_C09_NilCb", K: 24, U: 3, Prune: true, TimeoutSec: 900},
 			{H: "H_C09_StopStart", K: 40, U: 3, Prune: true, Preempt: 2, TimeoutSec: 900},
+			{H: "H_C09_Delivered", K: 80, U: 3, Prune: true, Preempt: 2, Covers: 1, TimeoutSec: 900},
 		},
-		Bounds:  "one reference + two context replacements inside one resolver latency; AddRef(nil) concurrent with resolution; K<=30",
-		Outside: "more than 3 resolver calls",
+		Bounds:  "one reference + two context replacements inside one resolver latency; AddRef(nil) concurrent with resolution; stop/start inside one resolver latency; delivery: result of the resolver in both target containers and told to an early and a late reference, released() -> resolved afresh (second call succeeds or fails, symbolic), last release empties the containers (K=80, at most 2 preemptions); K<=40 otherwise",
+		Outside: "more than 3 resolver calls; more than 2 references",
 	}
 	plans["C10"] = Plan{
 		Quick: []Job{
 			{H: "H_C10_WaitWithReleased", K: 36, U: 3, Prune: true, TimeoutSec: 900},
+			{H: "H_C10_ResolveWithReleased", K: 66, U: 3, Prune: true, Preempt: 2, Covers: 1, TimeoutSec: 770, QueryMs: 400000},
+			{H: "H_C10_Resolve", K: 66, U: 3, Prune: true, Preempt: 2, Covers: 1, TimeoutSec: 770, QueryMs: 400000},
 		},
 		Thorough: []Job{
+			{H: "H_C10_ResolveWithReleased", K: 84, U: 3, Prune: true, Preempt: 3, TimeoutSec: 6000, QueryMs: 3000000},
+			{H: "H_C10_Resolve", K: 84, U: 3, Prune: true, Preempt: 3, TimeoutSec: 6000, QueryMs: 3000000},
 			{H: "H_C10_AccessInvalidate", K: 64, U: 3, Prune: true, Preempt: 1, TimeoutSec: 9000, QueryMs: 6000000, Weight: 2},
 		},
-		Bounds:  "value already resolved; WaitWithReleased concurrent with one invalidation (SetContext); K=36. Thorough: Access whose first callback invocation invalidates its own value and waits until the invalidation is delivered (must be re-invoked with the replacement; must not return the stale invocation's result), schedules with at most 1 preemption, K=64 (encoding alone takes ~13 min)",
+		Bounds:  "value already resolved; WaitWithReleased concurrent with one invalidation (SetContext), K=36; a consumer obtaining the value through ResolveWithReleased / Resolve, holding it, optionally invalidated by the resolver's released() while holding (symbolic), then releasing: value not released while referenced unless invalidated, released callback exactly once after an invalidation and never otherwise, every value released exactly once (K=66, at most 2 preemptions; thorough K=84, 3 preemptions). Thorough: Access whose first callback invocation invalidates its own value and waits until the invalidation is delivered (must be re-invoked with the replacement; must not return the stale invocation's result), schedules with at most 1 preemption, K=64 (encoding alone takes ~13 min)",
 		Outside: "more than one invalidation; an independent invalidator thread racing Access (unrolling does not finish)",
 	}
 
